@@ -3,6 +3,7 @@ package c09
 import (
 	"fmt"
 	"reflect"
+	"runtime"
 	"sort"
 	"strconv"
 	"strings"
@@ -32,7 +33,7 @@ var queries = []string{
 	/*1*/ "SELECT ARRAY[1, 2, 3], ARRAY[a, (b, c)] FROM t",
 	/*2*/ "SELECT arr[1], arr[2:3], m[1][2], (a, b) FROM t",
 	/*3*/ "SELECT a FROM t WHERE a IN (SELECT b FROM u WHERE (b, c) IN ((1, 2))) OR 1 = 1",
-	/*4*/ "SELECT f(a, ARRAY[b]), COUNT(*) FROM t JOIN u ON t.id = u.id WHERE x IN (1, 2, 3) ORDER BY a",
+	/*4*/ "SELECT f(a, ARRAY[b]), COUNT(*) FROM t JOIN u ON t.id = u.id WHERE x IN (1, 2, 3) GROUP BY a HAVING (a, c) IN ((1, 2)) ORDER BY a",
 	/*5*/ "UPDATE t SET a = ARRAY[1, 2] WHERE (a, b) IN ((1, 2)); INSERT INTO t (a, b) VALUES (ARRAY[1, 2], arr[1:2]); DELETE FROM t WHERE (a, b) IN ((1, 2)) AND c = arr[3]",
 }
 
@@ -42,8 +43,8 @@ const (
 	// syntax errors after pooled nodes have been taken
 	badQuery1 = "SELECT (a, b), ARRAY[1, 2], arr[1:2], arr[3] FROM"
 	badQuery2 = "SELECT (a, ARRAY[1, (2, 3)], arr[1], ) FROM t"
-	// recovery: first statement fails after taking pooled nodes, second succeeds
-	recoverQuery = "SELECT (a, b), ARRAY[1] FROM WHERE; SELECT ARRAY[1, 2], (c, d), arr[1] FROM t"
+	// recovery: the second statement fails after taking pooled nodes, the first and third succeed
+	recoverQuery = "SELECT (a, b), ARRAY[1] FROM t; SELECT (c, d), ARRAY[2] FROM WHERE; SELECT ARRAY[1, 2], (e, f), arr[1] FROM t"
 	tokenQuery   = "SELECT a, 'str', \"q\", 1.5 /* block */ FROM t -- line\nWHERE (a, b) IN ((1, 2))"
 )
 
@@ -68,12 +69,81 @@ type histState struct {
 	scanner  *security.Scanner
 	reuse    int
 	failed   bool
+	ref      *reference
+}
+
+// reference holds the strict dumps of what the parse operations return when every pool is empty.
+// "Indistinguishable from a freshly constructed one" means in particular that the tree built for a
+// statement does not depend on what the pools contained.
+type reference struct {
+	trees     []string
+	recovered string
+	// number of pooled nodes per type in the tree of each statement (bounds what a step can release)
+	treeNodes []map[reflect.Type]int
+	workNodes map[reflect.Type]int
+	recNodes  map[reflect.Type]int
+}
+
+func nodeCounts(x any, pooled map[reflect.Type]bool) map[reflect.Type]int {
+	ptrs := map[uintptr]reflect.Type{}
+	collectPointers(x, pooled, ptrs)
+	out := map[reflect.Type]int{}
+	for _, t := range ptrs {
+		out[t]++
+	}
+	return out
+}
+
+func buildReference(pooled map[reflect.Type]bool) *reference {
+	r := &reference{}
+	for _, q := range queries {
+		clearPools()
+		tree, err := gosqlx.Parse(q)
+		if err != nil {
+			r.trees = append(r.trees, "")
+			r.treeNodes = append(r.treeNodes, nil)
+			continue
+		}
+		r.trees = append(r.trees, deepDump(tree)) // never released: the pools stay empty
+		r.treeNodes = append(r.treeNodes, nodeCounts(tree, pooled))
+	}
+	clearPools()
+	stmts, _ := gosqlx.ParseWithRecovery(recoverQuery)
+	r.recovered = deepDump(stmts)
+	r.recNodes = nodeCounts(stmts, pooled)
+	r.workNodes = map[reflect.Type]int{}
+	for _, q := range []string{workQuery, badQuery1, badQuery2} {
+		// the failing statements are counted through their longest valid relatives: every node the
+		// parser can have built before the error is a node of a tree of this size
+		if tree, err := gosqlx.Parse(q); err == nil {
+			for t, n := range nodeCounts(tree, pooled) {
+				if n > r.workNodes[t] {
+					r.workNodes[t] = n
+				}
+			}
+		}
+	}
+	for t := range r.workNodes {
+		r.workNodes[t] += 4
+	}
+	return r
+}
+
+func (h *histState) sameAsFresh(o string, got, want string) {
+	if got != want {
+		h.failed = true
+		h.c.Fail("tree-differs-from-fresh:"+o,
+			"the tree returned by "+o+" differs from the tree the same call returns when the pools are empty (content of recycled nodes leaked into it): "+sqlgen.FirstDiff(want, got))
+	}
 }
 
 type op struct {
 	name  string // key text, e.g. P3
 	class string // signature text, e.g. Parse
 	run   func(h *histState)
+	// nodes bounds, per pooled type, how many nodes this operation can create (and so how many a
+	// history containing it can release)
+	nodes func(r *reference) map[reflect.Type]int
 }
 
 func (h *histState) hold(x *held) {
@@ -146,35 +216,36 @@ func buildOps() []op {
 				return
 			}
 			h.hold(&held{kind: "tree", desc: "q" + strconv.Itoa(i), val: tree, release: func() { sqlast.ReleaseAST(tree) }})
-		}})
+			h.sameAsFresh("Parse", h.held[len(h.held)-1].snap, h.ref.trees[i])
+		}, func(r *reference) map[reflect.Type]int { return r.treeNodes[i] }})
 	}
 	ops = append(ops,
-		op{"R0", "ReleaseAST", func(h *histState) { h.releaseTree(0) }},
-		op{"R1", "ReleaseAST", func(h *histState) { h.releaseTree(1) }},
-		op{"Rn", "ReleaseAST", func(h *histState) { h.releaseTree(-1) }},
-		op{"E1", "ParseError", func(h *histState) {
+		op{name: "R0", class: "ReleaseAST", run: func(h *histState) { h.releaseTree(0) }},
+		op{name: "R1", class: "ReleaseAST", run: func(h *histState) { h.releaseTree(1) }},
+		op{name: "Rn", class: "ReleaseAST", run: func(h *histState) { h.releaseTree(-1) }},
+		op{name: "E1", class: "ParseError", run: func(h *histState) {
 			if _, err := gosqlx.Parse(badQuery1); err == nil {
 				h.c.Outcome("bad-query-accepted")
 			}
 		}},
-		op{"E2", "ParseError", func(h *histState) {
+		op{name: "E2", class: "ParseError", run: func(h *histState) {
 			if _, err := gosqlx.Parse(badQuery2); err == nil {
 				h.c.Outcome("bad-query-accepted")
 			}
 		}},
-		op{"F", "gosqlx.Format", func(h *histState) {
+		op{name: "F", class: "gosqlx.Format", run: func(h *histState) {
 			_, _ = gosqlx.Format(workQuery, gosqlx.DefaultFormatOptions())
 		}},
-		op{"FF", "formatter.Format", func(h *histState) {
+		op{name: "FF", class: "formatter.Format", run: func(h *histState) {
 			_, _ = formatter.New(formatter.Options{Uppercase: true}).Format(workQuery)
 		}},
-		op{"V", "ValidateBytes", func(h *histState) {
+		op{name: "V", class: "ValidateBytes", run: func(h *histState) {
 			_ = parser.ValidateBytes([]byte(workQuery))
 		}},
-		op{"L", "LintString", func(h *histState) {
+		op{name: "L", class: "LintString", run: func(h *histState) {
 			_ = h.lint.LintString(workQuery, "<c09>")
 		}},
-		op{"X", "Extract", func(h *histState) {
+		op{name: "X", class: "Extract", run: func(h *histState) {
 			t := h.newestTree()
 			if t == nil {
 				return
@@ -183,21 +254,22 @@ func buildOps() []op {
 				gosqlx.ExtractColumnsQualified(t), gosqlx.ExtractFunctions(t), gosqlx.ExtractMetadata(t)}
 			h.hold(&held{kind: "extract", desc: "lists", val: lists})
 		}},
-		op{"S", "Scan", func(h *histState) {
+		op{name: "S", class: "Scan", run: func(h *histState) {
 			t := h.newestTree()
 			if t == nil {
 				return
 			}
 			h.hold(&held{kind: "scan", desc: "result", val: h.scanner.Scan(t)})
 		}},
-		op{"W", "ParseWithRecovery", func(h *histState) {
+		op{name: "W", class: "ParseWithRecovery", run: func(h *histState) {
 			stmts, _ := gosqlx.ParseWithRecovery(recoverQuery)
 			if len(stmts) == 0 {
 				return
 			}
 			h.hold(&held{kind: "stmts", desc: "recovered", val: stmts, release: func() { sqlast.ReleaseStatements(stmts) }})
+			h.sameAsFresh("ParseWithRecovery", h.held[len(h.held)-1].snap, h.ref.recovered)
 		}},
-		op{"T", "Tokenize", func(h *histState) {
+		op{name: "T", class: "Tokenize", run: func(h *histState) {
 			tkz := tokenizer.GetTokenizer()
 			toks, err := tkz.Tokenize([]byte(tokenQuery))
 			if err != nil {
@@ -209,7 +281,7 @@ func buildOps() []op {
 			var cm []models.Comment = tkz.Comments
 			h.hold(&held{kind: "comments", desc: "comments", val: cm, owner: tkz})
 		}},
-		op{"TP", "PutTokenizer", func(h *histState) {
+		op{name: "TP", class: "PutTokenizer", run: func(h *histState) {
 			for i, x := range h.held {
 				if x.kind == "comments" {
 					h.held = append(h.held[:i:i], h.held[i+1:]...)
@@ -219,6 +291,14 @@ func buildOps() []op {
 			}
 		}},
 	)
+	for i := range ops {
+		switch ops[i].name {
+		case "E1", "E2", "F", "FF", "V", "L":
+			ops[i].nodes = func(r *reference) map[reflect.Type]int { return r.workNodes }
+		case "W":
+			ops[i].nodes = func(r *reference) map[reflect.Type]int { return r.recNodes }
+		}
+	}
 	return ops
 }
 
@@ -296,10 +376,11 @@ func newLinter() *linter.Linter {
 }
 
 // enumerateHistories registers every history over the alphabet with 1..depth steps.
-func enumerateHistories(e *common.Enum, pooled map[reflect.Type]bool, depth int) {
+func enumerateHistories(e *common.Enum, targets []*cleanTarget, pooled map[reflect.Type]bool, depth int) {
 	ops := buildOps()
 	lint := newLinter()
 	scanner := security.NewScanner()
+	ref := buildReference(pooled)
 	idx := make([]int, 0, depth)
 	var rec func()
 	run := func(seq []int) {
@@ -314,7 +395,7 @@ func enumerateHistories(e *common.Enum, pooled map[reflect.Type]bool, depth int)
 		seq = append([]int(nil), seq...)
 		e.Do(key, func(c *common.Ctx) {
 			c.Input(strings.Join(names, " > "))
-			runHistory(c, ops, seq, pooled, lint, scanner)
+			runHistory(c, ops, seq, targets, pooled, lint, scanner, ref)
 		})
 	}
 	rec = func() {
@@ -333,11 +414,11 @@ func enumerateHistories(e *common.Enum, pooled map[reflect.Type]bool, depth int)
 	rec()
 }
 
-func runHistory(c *common.Ctx, ops []op, seq []int, pooled map[reflect.Type]bool, lint *linter.Linter, scanner *security.Scanner) {
+func runHistory(c *common.Ctx, ops []op, seq []int, targets []*cleanTarget, pooled map[reflect.Type]bool, lint *linter.Linter, scanner *security.Scanner, ref *reference) {
 	// empty pools at the start of every history: the same history gives the same pool traffic in a
 	// batch and in a fresh replay process, and residue of one history cannot surface in the next
 	clearPools()
-	h := &histState{c: c, pooled: pooled, released: map[uintptr]bool{}, lint: lint, scanner: scanner}
+	h := &histState{c: c, pooled: pooled, released: map[uintptr]bool{}, lint: lint, scanner: scanner, ref: ref}
 	for _, k := range seq {
 		ops[k].run(h)
 		c.Count("transitions", 1)
@@ -346,6 +427,22 @@ func runHistory(c *common.Ctx, ops []op, seq []int, pooled map[reflect.Type]bool
 		if h.failed {
 			break
 		}
+	}
+	if !h.failed {
+		bound := map[reflect.Type]int{}
+		for _, k := range seq {
+			if ops[k].nodes != nil {
+				for t, n := range ops[k].nodes(ref) {
+					bound[t] += n
+				}
+			}
+			for _, tg := range targets {
+				if tg.Pool.Elem == "AST" {
+					bound[tg.Type]++
+				}
+			}
+		}
+		h.audit(targets, bound)
 	}
 	if len(seq) <= 2 {
 		c.Sample(map[string]any{"history": c.Key, "final_state": h.stateText()})
@@ -361,4 +458,52 @@ func runHistory(c *common.Ctx, ops []op, seq []int, pooled map[reflect.Type]bool
 		c.Outcome(fmt.Sprintf("ok:held=%d:no-reuse", len(h.held)))
 	}
 	// Trees still held are simply dropped (never released twice, never used after release).
+}
+
+// auditDepth bounds how many objects the audit takes from each pool: more than the number of nodes
+// of one type that the longest history can release (about a dozen per statement, at most five
+// statements held or parsed internally per step).
+const auditSlack = 6
+
+// audit empties the pools at the end of a history through the public Get functions.  The pools were
+// empty when the history started, so everything they hold was released during it.  An object that
+// comes out twice was put twice (two later holders would own the same node); an object that is part
+// of a tree the harness still holds was released while referenced by a returned value.  Every
+// prefix of a history is itself an enumerated history, so auditing at the end audits every step.
+func (h *histState) audit(targets []*cleanTarget, bound map[reflect.Type]int) {
+	live := map[uintptr]string{}
+	for _, i := range h.liveTrees() {
+		for a := range h.held[i].ptrs {
+			live[a] = h.held[i].desc
+		}
+	}
+	for _, tg := range targets {
+		if tg.Get == nil {
+			continue
+		}
+		// twice the number of nodes of this type the history can have created, plus slack: an object put
+		// twice sits in the pool between the others, so it comes out twice within this many Gets
+		depth := 2*bound[tg.Type] + auditSlack
+		seen := make(map[uintptr]bool, depth)
+		keep := make([]any, 0, depth)
+		for i := 0; i < depth; i++ {
+			g := tg.Get()
+			keep = append(keep, g)
+			a := reflect.ValueOf(g).Pointer()
+			if seen[a] {
+				h.failed = true
+				h.c.Fail("double-put:"+tg.Pool.Elem,
+					fmt.Sprintf("%s returned the same %s twice at the end of the history: the object was put into %s twice, two later holders would own one node", tg.GetBy, tg.Pool.Elem, tg.Pool.Var))
+				break
+			}
+			seen[a] = true
+			if d, ok := live[a]; ok {
+				h.failed = true
+				h.c.Fail("live-node-in-pool:"+tg.Pool.Elem,
+					fmt.Sprintf("%s returned a %s that is still part of the held tree %s: the library released a node that a value it handed out still references", tg.GetBy, tg.Pool.Elem, d))
+				break
+			}
+		}
+		runtime.KeepAlive(keep)
+	}
 }
